@@ -154,6 +154,10 @@ def ncores() -> int:
 
 def _pool_call(args):
     fn, item = args
+    dbg = os.environ.get('VERIF_HANG_DEBUG')
+    if dbg:
+        import faulthandler
+        faulthandler.dump_traceback_later(int(dbg), exit=False, file=open(f'/tmp/hang_{os.getpid()}.txt', 'a'))
     try:
         return ('ok', fn(item))
     except HarnessError as e:
